@@ -13,7 +13,7 @@ if __name__ == "__main__":  # the `python -O` child of probe_cases: needs harnes
 from common import bits_str, hex_str, impl_error
 
 PROP = "C04"
-MODULES = ["C04", "C04a", "C04b", "C04c"]
+MODULES = ["C04", "C04a", "C04b", "C04c", "C04p"]
 GEN = ["Codes", "Crc", "Integrity"]
 ANCHORS = [
     "okdmr/dmrlib/etsi/crc",
